@@ -1,6 +1,7 @@
 (** * C09 — unwrapping conserves the value: handed out once or kept, never both or neither.  Property theorems only. *)
 From Coq Require Import NArith List Bool Arith.
 From TV Require Import Layout SrcFacts Conc ConcProofs ConcX ConcXProofs Mech MechProofs MechLog MechProps Extracted.
+From TV Require Import SchedCases SchedProofs.
 Import ListNotations.
 Open Scope N_scope.
 
@@ -94,6 +95,14 @@ Proof. exact xsafe. Qed.
 Theorem C09_functions_are_the_modelled_ones : Extracted.cow_forms_ok = true.
 Proof. reflexivity. Qed.
 
+(** The schedule stream (tools/propdefs.py, harness/src/sched.rs) drives real threads of the crate through label
+    streams filtered by the machine and compares every step.  Whatever the generator produces, what the machine accepts
+    is one of the executions the theorem above is about: the final state of every case of the stream is safe. *)
+Theorem C09_every_schedule_of_the_stream_is_covered :
+  forall fuel ls, bad (fst (run_labels Extracted.count_progs fuel xinit ls)) = false.
+Proof. exact sched_stream_is_covered. Qed.
+
+
 Check C09_moved_out_or_destroyed_exactly_once.
 Print Assumptions C09_try_unwrap.
 Print Assumptions C09_try_unique.
@@ -105,3 +114,4 @@ Print Assumptions C09_closed_world.
 Print Assumptions C09_protocol_as_written.
 Print Assumptions C09_functions_are_the_modelled_ones.
 Print Assumptions C09_protocol_as_written_is_safe.
+Print Assumptions C09_every_schedule_of_the_stream_is_covered.
